@@ -10,9 +10,13 @@ package main
 import (
 	"bytes"
 	"context"
+	"errors"
 	"fmt"
+	"io"
 	"os"
 	"path/filepath"
+	"sync"
+	_ "unsafe"
 
 	"github.com/golang/protobuf/ptypes/empty"
 	"massnet.org/mass/api"
@@ -85,7 +89,37 @@ func (f *front) ChPub(old, np []byte) error {
 	return err
 }
 
+// snaclPrng is the entropy source of the keystore's key generation (package variable snacl.prng, crypto/rand.Reader):
+// the driver wraps it so that a history can make it fail for a few reads (a transient fault of the entropy source).
+//
+//go:linkname snaclPrng massnet.org/mass/poc/wallet/keystore/snacl.prng
+var snaclPrng io.Reader
+
+type flakyEntropy struct {
+	mu         sync.Mutex
+	inner      io.Reader
+	skip, fail int
+}
+
+func (f *flakyEntropy) Read(p []byte) (int, error) {
+	f.mu.Lock()
+	if f.fail > 0 {
+		if f.skip > 0 {
+			f.skip--
+		} else {
+			f.fail--
+			f.mu.Unlock()
+			return 0, errors.New("entropy source unavailable (injected)")
+		}
+	}
+	f.mu.Unlock()
+	return f.inner.Read(p)
+}
+
 func main() {
+	fe := &flakyEntropy{inner: snaclPrng}
+	snaclPrng = fe
+	wl.EntropyFault = func(skip, fail int) { fe.mu.Lock(); fe.skip, fe.fail = skip, fail; fe.mu.Unlock() }
 	run := vh.NewRun("C04", "exploration")
 	logDir := filepath.Join(run.Scratch, "log")
 	wl.Setup(logDir, "trace")
@@ -96,11 +130,16 @@ func main() {
 			"export": 8, "import": 5, "lock": 4, "unlock": 8, "sign": 4, "restart": 4},
 		Scan: true,
 		Mutate: func(r *vh.Rng, ops []wl.Op) []wl.Op {
-			ins := []wl.Op{{Kind: "next", N: 2}, {Kind: "unlock", PC: "cur"}, {Kind: "export", PC: "cur", K: r.Intn(3)}, {Kind: "chpriv", PC: "cur", NPC: "fresh"}}
+			ins := []wl.Op{{Kind: "next", N: 2}, {Kind: "unlock", PC: "cur"}, {Kind: "export", PC: "cur", K: r.Intn(3)}, {Kind: "import-damaged", X: -1}, {Kind: "import-damaged", X: -1}, {Kind: "chpriv", PC: "cur", NPC: "fresh"}}
 			if r.Bool() {
 				// several keystores re-keyed while the wallet is locked, then an export -> delete -> import -> export chain
 				ins = append(ins, wl.Op{Kind: "create", PC: "cur", SeedKind: "fresh", Remark: "second"}, wl.Op{Kind: "lock"}, wl.Op{Kind: "chpriv", PC: "cur", NPC: "fresh"},
 					wl.Op{Kind: "export", PC: "cur", K: 0}, wl.Op{Kind: "delete", PC: "cur", K: 0}, wl.Op{Kind: "import", PC: "exp", X: 99}, wl.Op{Kind: "export", PC: "cur", K: 5})
+			}
+			if r.Chance(1, 2) {
+				// a keystore created while the entropy source fails for two reads in a row, then exported: either the
+				// creation is refused or what it stored and exports is protected like any other keystore
+				ins = append(ins, wl.Op{Kind: "create", PC: "cur", SeedKind: "fresh", Remark: "entropy", EntropySkip: r.Intn(4), EntropyFail: 2}, wl.Op{Kind: "unlock", PC: "cur"}, wl.Op{Kind: "export", PC: "cur", K: -1})
 			}
 			pos := 1 + r.Intn(len(ops)/2+1)
 			out := append([]wl.Op{}, ops[:pos]...)
